@@ -248,6 +248,36 @@ def mutated_cases(rng, n):
     return out
 
 
+def negative_offset_cases(rng, n):
+    """the same chunks addressed from the end: data offset / displacements made negative (Python negative slicing and indexing)"""
+    out = []
+    for i in range(n):
+        if i % 2 == 0:
+            c = stxt_case(rng)
+            toks = c.lines[1].split()
+            data = bytearray(bytes.fromhex(toks[-1]))
+            if rng.random() < 0.7:
+                data += b"\x00"
+            idxb = struct.unpack(">i", data[0:4])[0] - len(data)
+            data[0:4] = struct.pack(">i", idxb)
+            toks[-1] = hx(bytes(data))
+            out.append(Case(kind="neg-stxt", spec=dict(idxb=idxb, of=c.spec, hexes=[None]), lines=[" ".join(toks)], expect=[None]))
+        else:
+            parts = list(fmap_parts(rng))
+            hdr, fonts, unused, htail, bpre, btail = parts
+            if rng.random() < 0.7:
+                btail += b"\x00"
+            data = bytearray(enc_fmap(hdr, fonts, unused, htail, bpre, btail))
+            bdlen = struct.unpack(">i", data[4:8])[0]
+            for k in range(len(fonts)):
+                p = 8 + 28 + 8 * k
+                d = struct.unpack(">i", data[p:p + 4])[0] - bdlen
+                data[p:p + 4] = struct.pack(">i", d)
+            codec = rng.choice(CODECS)
+            out.append(Case(kind="neg-fmap", spec=dict(nfonts=len(fonts), codec=codec, hexes=[None]), lines=[f"text fmap {codec} {hx(bytes(data))}"], expect=[None]))
+    return out
+
+
 def cases(rng, tier):
     n = dict(quick=(500, 500, 300, 150, 1200), thorough=(12000, 12000, 6000, 3000, 20000), search=(8000, 8000, 3000, 0, 0))[tier]
     out = byte_texts(rng)
@@ -258,6 +288,7 @@ def cases(rng, tier):
     out += [pipeline_case(rng) for _ in range(n[2])]
     out += [stxt_case(rng, dup=True) for _ in range(n[3])]
     out += mutated_cases(rng, n[4])
+    out += negative_offset_cases(rng, n[3])
     return out
 
 
